@@ -7,7 +7,8 @@ use serde_json::json;
 pub fn build(tier: Tier) -> CheckDef {
     let mut spaces: Vec<Box<dyn Space>> = vec![Box::new(StreamSpace { which: Which::C07, cases: stream_cases(tier, Which::C07), threads: tier.pick(4, 8), budget_secs: tier.pick(150, 7200) })];
     spaces.push(Box::new(HugeOpen { which: Which::C07 }));
-    spaces.push(Box::new(Occupancy { which: Which::C07, max: tier.pick(40, 80) }));
+    spaces.push(Box::new(Occupancy { which: Which::C07, max: tier.pick(72, 100) }));
+    spaces.push(Box::new(OccupancyBig { which: Which::C07 }));
     spaces.push(Box::new(HugeSession { which: Which::C07, depth: tier.pick(2, 3), encs: tier.pick(1, 2) }));
     let (l, b) = lattice_spaces(tier, StreamLattice { which: Which::C07, open_dev: tier == Tier::Thorough }, "C07 stream == slice");
     spaces.extend(l);
